@@ -6,7 +6,7 @@ set -u
 PATCH=$(readlink -f "$1"); shift
 ROOT=${VSEED_ROOT:-/tmp/vseed}
 mkdir -p $ROOT
-rsync -a --delete --exclude replays --exclude evidence /verif/ $ROOT/verif/
+rsync -a --delete --exclude replays --exclude evidence ${VSEED_SRC:-/verif}/ $ROOT/verif/
 if [ ! -d $ROOT/repo ]; then git -C /repo worktree add -q --detach $ROOT/repo HEAD; fi
 git -C $ROOT/repo checkout -q --detach $(git -C /repo rev-parse HEAD) && git -C $ROOT/repo checkout -q -- . && git -C $ROOT/repo clean -fdq
 sed -i "s#=> /repo#=> $ROOT/repo#" $ROOT/verif/harness/go.mod
